@@ -146,8 +146,8 @@ def check(ctx):
             "reversed order, to_atoms_ensemble", space="B seeds")
     # H: histories on ONE FrozenPhonons + Potential object pair: whatever was done with it before (iterated, built eagerly / lazily, used in
     # an eager or lazy multislice, partitioned), the next use gives what a fresh object gives
-    H = [{"kind": kind, "n": n, "first": f, "depth": 2 if q else 3} for kind in ("fp", "ae") for n in (2, 3) for f in range(len(HEVENTS))]
-    ctx.run(H, "run_history", rule="H: BFS over all sequences of %d uses of one ensemble object (depth 2 quick / 3 thorough), never merged" % len(HEVENTS), space="H object histories")
+    H = [{"kind": kind, "n": n, "first": f, "depth": 3 if q else 4} for kind in ("fp", "ae") for n in (2, 3) for f in range(len(HEVENTS))]
+    ctx.run(H, "run_history", rule="H: BFS over all sequences of %d uses of one ensemble object (depth 3 quick / 4 thorough), never merged" % len(HEVENTS), space="H object histories")
 
 
 
